@@ -268,8 +268,8 @@ func exact(b []byte) []byte {
 // with `spare` bytes of capacity behind it (a sentinel pattern). Encode must not write to
 // the caller's memory (neither the block nor what lies behind it), must return what it
 // returns for a private copy, and the parity fragments it returns must not share memory
-// with the caller's buffer. (The data fragments of the unchanged code are sub-slices of
-// the argument - that is mirrored, not checked.)
+// with the caller's buffer or with each other (since fix of C10 audit finding 2 the data rows
+// are copies as well).
 func memCase(s *cases.Set, r *cq.RNG, m, size, red, spare int) {
 	n := m * size
 	if size <= 0 {
@@ -303,14 +303,36 @@ func memCase(s *cases.Set, r *cq.RNG, m, size, red, spare int) {
 		s.Fail(cases.GoFail{Key: "encode-depends-on-capacity:" + key, What: "fragmentation.Encode returns different fragments for the same block depending on the spare capacity of the argument", Replay: rp})
 		return
 	}
-	// the caller reuses its buffer: the parity fragments must keep their value
+	// the caller writes into the fragments it received, over their whole capacity (e.g. appends a
+	// trailer): neither its own buffer nor any other fragment may change
+	for i := range got {
+		full := got[i][:cap(got[i])]
+		for j := range full {
+			full[j] = 0xEE
+		}
+		if !bytes.Equal(backing, orig) {
+			rp["fragment_index"], rp["fragment_cap"], rp["buffer_after"] = i, cap(got[i]), fmt.Sprintf("%x", backing)
+			s.Fail(cases.GoFail{Key: "encode-output-aliases-caller-memory:" + key, What: "a fragment returned by fragmentation.Encode is a window into the caller's data: overwriting it (within its capacity) changes the caller's buffer", Replay: rp})
+			return
+		}
+		for k := i + 1; k < len(got); k++ {
+			if !bytes.Equal(got[k], ref[k]) {
+				rp["fragment_index"], rp["changed_fragment"] = i, k
+				s.Fail(cases.GoFail{Key: "encode-output-aliases-caller-memory:" + key, What: "writing into one returned fragment (within its capacity) changes another returned fragment", Replay: rp})
+				return
+			}
+		}
+	}
+	// fresh result for the next probe
+	_, got, _ = encodeObs(arg, size, red)
+	// the caller reuses its buffer: every returned fragment must keep its value
 	for i := range backing {
 		backing[i] = ^backing[i]
 	}
-	for i := m; i < len(got) && size > 0; i++ {
+	for i := 0; i < len(got) && size > 0; i++ {
 		if !bytes.Equal(got[i], ref[i]) {
-			rp["parity_index"] = i - m
-			s.Fail(cases.GoFail{Key: "encode-parity-aliases-caller-memory:" + key, What: "a parity fragment returned by fragmentation.Encode shares memory with the caller's buffer", Replay: rp})
+			rp["fragment_index"] = i
+			s.Fail(cases.GoFail{Key: "encode-output-aliases-caller-memory:" + key, What: "a fragment returned by fragmentation.Encode shares memory with the caller's buffer: it changes when the caller reuses the buffer", Replay: rp})
 			return
 		}
 	}
